@@ -1,3 +1,214 @@
-(* C33 - stub while the correspondence is being set up *)
-From Coq Require Import ZArith List.
-From PCB Require Import lib.PyInt gen.Gen_draw model.Draw.
+(* C33 - DRAW moves the pen exactly as its commands specify.
+   Only statements, `exact`, Print Assumptions and non-vacuity examples here.
+
+   Vocabulary (model/Draw.v):
+     draw g cmds          the DRAW statement on the Graphics state g (draw_ + _draw + _draw_step)
+     draw_string          the same from the bytes of the string (draw o parse; parse = MLParser reader)
+     plan cmds fl ps      the position-free pass: the moves the commands stand for (prefixes, scale,
+                          colour, X nesting resolved), where the statement stops, final scale/colour
+     pen_after p ms       walk the moves from p;  segs_of p ms  the lines of the moves that draw
+   "Without angle turning": the angle is 0 and the string has no A / TA (angle_free).  A and TA use floats
+   (except 0/180/360, which the model follows and the harness tests) and are excluded by the property. *)
+From Coq Require Import ZArith List Bool.
+From PCB Require Import lib.PyInt gen.Gen_draw model.Draw proofs.Draw_proofs proofs.Draw_parse_proofs.
+Import ListNotations.
+Open Scope Z_scope.
+
+(* ---- final pen position -------------------------------------------------------------------------- *)
+
+(* for every command list: the statement ends (normally or with the error) where the plan says, the pen
+   is where walking the planned moves from the start position leads, scale and colour persist *)
+Theorem C33_final_pos : forall g cmds,
+  g_text g = false -> g_angle g = 0 -> angle_free cmds = true ->
+  let r := draw g cmds in
+  let pl := plan cmds fresh (mkP (g_scale g) (g_attr g)) in
+  dr_status r = pl_status pl
+  /\ current (dr_state r) = pen_after (current g) (pl_moves pl)
+  /\ dr_segs r = segs_of (current g) (pl_moves pl)
+  /\ g_scale (dr_state r) = p_scale (pl_pst pl) /\ g_attr (dr_state r) = p_attr (pl_pst pl)
+  /\ g_angle (dr_state r) = 0.
+Proof. exact draw_plan. Qed.
+Print Assumptions C33_final_pos.
+
+(* what the planned moves are: U D L R E F G H n and relative M contribute (scale * d) quot 4 per
+   coordinate (truncation toward zero), absolute M its target; B clears `plot`, N sets `back`, both are
+   used up by the next move; S and C change scale / colour for what follows; X runs the substring with
+   prefixes of its own *)
+Theorem C33_move_offsets : forall l fl ps,
+  (forall d n, in_range (-99999, 99999) n = true ->
+     plan (Move d n :: l) fl ps =
+     (pl_pst (plan l fresh ps),
+      mkmove false (Z.quot (p_scale ps * (n * fst (unit d))) 4, Z.quot (p_scale ps * (n * snd (unit d))) 4)
+             (fst fl) (snd fl) (p_attr ps) :: pl_moves (plan l fresh ps),
+      pl_status (plan l fresh ps)))
+  /\ (forall x y, in_range (-9999, 9999) x && in_range (-9999, 9999) y = true ->
+     plan (MRel x y :: l) fl ps =
+     (pl_pst (plan l fresh ps),
+      mkmove false (Z.quot (p_scale ps * x) 4, Z.quot (p_scale ps * y) 4) (fst fl) (snd fl) (p_attr ps)
+        :: pl_moves (plan l fresh ps),
+      pl_status (plan l fresh ps)))
+  /\ (forall x y, in_range (-9999, 9999) x && in_range (-9999, 9999) y = true ->
+     plan (MAbs x y :: l) fl ps =
+     (pl_pst (plan l fresh ps),
+      mkmove true (x, y) (fst fl) (snd fl) (p_attr ps) :: pl_moves (plan l fresh ps),
+      pl_status (plan l fresh ps)))
+  /\ plan (PreB :: l) fl ps = plan l (false, snd fl) ps
+  /\ plan (PreN :: l) fl ps = plan l (fst fl, true) ps
+  /\ (forall n, in_range (1, 255) n = true -> plan (SetScale n :: l) fl ps = plan l fl (mkP n (p_attr ps)))
+  /\ (forall n, in_range (-99999, 99999) n = true ->
+        plan (SetColour n :: l) fl ps = plan l fl (mkP (p_scale ps) n))
+  /\ (forall name body, pl_status (plan body fresh ps) = Done ->
+        plan (Sub name body :: l) fl ps =
+        (pl_pst (plan l fl (pl_pst (plan body fresh ps))),
+         pl_moves (plan body fresh ps) ++ pl_moves (plan l fl (pl_pst (plan body fresh ps))),
+         pl_status (plan l fl (pl_pst (plan body fresh ps))))).
+Proof.
+  intros l fl ps.
+  split; [intros d n H; exact (plan_move d n l fl ps H)|].
+  split; [intros x y H; exact (plan_mrel x y l fl ps H)|].
+  split; [intros x y H; exact (plan_mabs x y l fl ps H)|].
+  split; [exact (plan_prefix_B l fl ps)|].
+  split; [exact (plan_prefix_N l fl ps)|].
+  split; [intros n H; exact (plan_scale n l fl ps H)|].
+  split; [intros n H; exact (plan_colour n l fl ps H)|].
+  intros name body H; exact (plan_sub name body l fl ps H).
+Qed.
+Print Assumptions C33_move_offsets.
+
+(* walking the moves = start + sum of the offsets, with the B/N/absolute-M rules:
+   - no absolute move that stays: start + sum of the offsets of the moves not undone by N;
+   - an absolute move that stays sets the position: its target + the sum of what follows;
+   - a move with N does not change the position at all *)
+Theorem C33_sum_of_offsets :
+  (forall ms p, no_abs ms = true -> pen_after p ms = padd p (vsum (rel_offsets ms)))
+  /\ (forall ms1 m ms2 p, m_abs m = true -> m_back m = false -> no_abs ms2 = true ->
+        pen_after p (ms1 ++ m :: ms2) = padd (m_vec m) (vsum (rel_offsets ms2)))
+  /\ (forall ms1 m ms2 p, m_back m = true -> pen_after p (ms1 ++ m :: ms2) = pen_after p (ms1 ++ ms2)).
+Proof.
+  split; [intros ms p H; exact (pen_after_sum ms p H)|].
+  split; [intros ms1 m ms2 p H1 H2 H3; exact (pen_after_abs ms1 m ms2 p H1 H2 H3)|].
+  intros ms1 m ms2 p H; exact (pen_after_back ms1 m ms2 p H).
+Qed.
+Print Assumptions C33_sum_of_offsets.
+
+(* ---- segments ------------------------------------------------------------------------------------ *)
+
+(* the requests to Graphics._draw_line (the function LINE draws with) are exactly the lines from the pen
+   position before a move to the target of the move, for the moves that draw (no B), in order, with the
+   colour in force; the position before move i is the pen after the first i moves *)
+Theorem C33_segments : forall g cmds,
+  g_text g = false -> g_angle g = 0 -> angle_free cmds = true ->
+  let ms := pl_moves (plan cmds fresh (mkP (g_scale g) (g_attr g))) in
+  dr_segs (draw g cmds) =
+    map (fun qm => mkseg (fst qm) (target (fst qm) (snd qm)) (m_attr (snd qm)))
+        (filter (fun qm => m_plot (snd qm)) (combine (positions (current g) ms) ms))
+  /\ length (positions (current g) ms) = length ms
+  /\ forall i, (i < length ms)%nat ->
+       nth i (positions (current g) ms) (0, 0) = pen_after (current g) (firstn i ms).
+Proof.
+  intros g cmds Ht Ha Haf ms.
+  split; [|split; [exact (positions_length (current g) ms) | exact (positions_nth ms (current g))]].
+  destruct (draw_plan g cmds Ht Ha Haf) as (_ & _ & Hs & _). fold ms in Hs. rewrite Hs.
+  exact (segs_of_positions ms (current g)).
+Qed.
+Print Assumptions C33_segments.
+
+(* ---- POINT(0), POINT(1), last point -------------------------------------------------------------- *)
+
+(* after any DRAW in a graphics mode POINT(0) / POINT(1) are the pen coordinates (the code reads
+   _draw_current, which DRAW always leaves set; the value is wrapped in a Single, exact up to 2^24);
+   the last point used by the other graphics statements follows the pen when the statement ends normally
+   and no WINDOW is active - with a WINDOW the code deliberately leaves it alone *)
+Theorem C33_point_fn : forall g cmds,
+  g_text g = false ->
+  let g' := dr_state (draw g cmds) in
+  point_fn g' 0 = fst (current g') /\ point_fn g' 1 = snd (current g')
+  /\ g_cur g' = Some (current g')
+  /\ g_window g' = g_window g
+  /\ (g_window g = true -> g_last g' = g_last g)
+  /\ (g_window g = false -> dr_status (draw g cmds) = Done -> g_last g' = current g').
+Proof. exact draw_point_fn. Qed.
+Print Assumptions C33_point_fn.
+
+(* ---- the reader ---------------------------------------------------------------------------------- *)
+
+(* DRAW of the text of any well-formed concrete syntax (any blanks before letters, numbers, commas and
+   semicolons, upper/lower case, + signs, leading zeros, blanks inside digit strings, counts left out,
+   "C;", numbers given as =variable; and X substrings) is DRAW of the commands it stands for *)
+Theorem C33_parse : forall depth e g cs,
+  Forall (ccmd_ok (sub_of depth e) e) cs ->
+  parse depth e (print cs) = abstract e cs
+  /\ draw_string depth e g (print cs) = draw g (abstract e cs).
+Proof.
+  intros depth e g cs H. pose proof (parse_print depth e cs H) as Hp.
+  split; [exact Hp|]. unfold draw_string. rewrite Hp. reflexivity.
+Qed.
+Print Assumptions C33_parse.
+
+(* every command list without X / malformed nodes has a text (decimal literals) that reads back as it *)
+Theorem C33_parse_canonical : forall depth e l cs,
+  canon_all l = Some cs -> forallb m_in_range l = true -> parse depth e (print cs) = l.
+Proof. exact parse_canon. Qed.
+Print Assumptions C33_parse_canonical.
+
+(* ---- range errors -------------------------------------------------------------------------------- *)
+
+(* a count outside +-99999, an M coordinate outside +-9999, a scale outside 1..255, a colour outside
+   +-99999: Illegal function call (5), nothing moved, nothing drawn, prefixes kept *)
+Theorem C33_range_errors : forall fl st,
+  (forall d n, in_range (-99999, 99999) n = false -> exec (Move d n) fl st = (fl, st, [], Raised 5))
+  /\ (forall x y, in_range (-9999, 9999) x && in_range (-9999, 9999) y = false ->
+        exec (MRel x y) fl st = (fl, st, [], Raised 5) /\ exec (MAbs x y) fl st = (fl, st, [], Raised 5))
+  /\ (forall n, in_range (1, 255) n = false -> exec (SetScale n) fl st = (fl, st, [], Raised 5))
+  /\ (forall n, in_range (-99999, 99999) n = false -> exec (SetColour n) fl st = (fl, st, [], Raised 5)).
+Proof. exact range_errors. Qed.
+Print Assumptions C33_range_errors.
+
+(* DRAW in a text mode: Illegal function call, nothing changes *)
+Theorem C33_text_mode : forall g cmds, g_text g = true -> draw g cmds = (g, [], Raised 5).
+Proof. intros g cmds H. unfold draw. rewrite H. reflexivity. Qed.
+Print Assumptions C33_text_mode.
+
+(* the products that the code divides by 4. in floating point stay far below 2^53, so the regenerated
+   `Z.quot (scale * d) 4` is what `int(math.trunc(scale*d / 4.))` computes; the scale stays in 1..255 *)
+Theorem C33_scaling_exact :
+  (forall sc v, 1 <= sc <= 255 -> in_range (-99999, 99999) v = true -> Z.abs (sc * v) < 2 ^ 53)
+  /\ (forall l fl st, 1 <= d_scale st <= 255 -> 1 <= d_scale (fst (fst (run l fl st))) <= 255).
+Proof. split; [exact scaled_product_small | exact run_scale]. Qed.
+Print Assumptions C33_scaling_exact.
+
+(* ---- non-vacuity --------------------------------------------------------------------------------- *)
+
+(* SCREEN 1 start state; "S8 U10 BR5 NE4 M+2,-3 XS$; M100,50 L7" with S$ = "C2 nd3": hypotheses hold, the
+   statement ends normally, pen = (86,50), POINT(0)/POINT(1) report it, the B move draws nothing, the N
+   moves return *)
+Example C33_nonvacuous :
+  let g := mkG None (160, 100) false 4 0 3 false in
+  let e : env := [([83; 36], VStr [67; 50; 32; 110; 100; 51])] in
+  let s := [83; 56; 32; 85; 49; 48; 32; 66; 82; 53; 32; 78; 69; 52; 32; 77; 43; 50; 44; 45; 51; 32;
+            88; 83; 36; 59; 32; 77; 49; 48; 48; 44; 53; 48; 32; 76; 55] in
+  let cmds := parse 2 e s in
+  let r := draw_string 2 e g s in
+  g_text g = false /\ g_angle g = 0 /\ angle_free cmds = true
+  /\ cmds = [SetScale 8; Move DU 10; PreB; Move DR 5; PreN; Move DE 4; MRel 2 (-3);
+             Sub [83; 36] [SetColour 2; PreN; Move DD 3]; MAbs 100 50; Move DL 7]
+  /\ dr_status r = Done /\ current (dr_state r) = (86, 50)
+  /\ point_fn (dr_state r) 0 = 86 /\ point_fn (dr_state r) 1 = 50 /\ g_last (dr_state r) = (86, 50)
+  /\ dr_segs r = [mkseg (160, 100) (160, 80) 3; mkseg (170, 80) (178, 72) 3; mkseg (170, 80) (174, 74) 3;
+                  mkseg (174, 74) (174, 80) 2; mkseg (174, 74) (100, 50) 2; mkseg (100, 50) (86, 50) 2].
+Proof. vm_compute. repeat split; reflexivity. Qed.
+
+(* the printer side is inhabited too: a spaced, lower-case, signed, zero-padded text with a variable *)
+Example C33_parse_nonvacuous :
+  let e : env := [([65; 37], VNum 7)] in
+  let cs := [CMove 1 true DU (Some (NLit 1 SPlus [(48, O); (49, 1%nat); (50, O)]));
+             CSemi 1; CB 0 false; CMRel 0 false (NVar 0 SMinus 1 (mkname [97] (Some 37)) 1) 2 (NLit 0 SNone [(51, O)]);
+             CC 0 true None 2; CMove 0 false DF None] in
+  Forall (ccmd_ok (sub_of 1 e) e) cs
+  /\ print cs = [32; 117; 32; 43; 48; 49; 32; 50; 32; 59; 66; 77; 45; 61; 32; 97; 37; 32; 59; 32; 32; 44; 51;
+                 99; 32; 32; 59; 70]
+  /\ abstract e cs = [Move DU 12; PreB; MRel (-7) 3; SetColour 0; Move DF 1].
+Proof.
+  split; [|split; vm_compute; reflexivity].
+  repeat constructor; vm_compute; reflexivity.
+Qed.
